@@ -17,6 +17,9 @@
  * aws_hash_callback_string_eq.  In modes 4..6 identity i is a text of length 11,12,13,23,24,25,35,36,37 (i mod 9), pointer
  * number q is a separate copy of it placed at byte alignment (i+q) mod 4 (lookups use a third copy at (i+2) mod 4), so
  * equal keys reach the library's hash through all alignment paths of lookup3.
+ * put with a <val> that a live value object already carries hands the library that SAME value pointer again (a refresh
+ * "put(K, the object already cached under K)"): the table still runs the value destructor on it (the code guards the key
+ * with `element->key != key` but not the value), so for that call the destructor callback logs and keeps the object.
  * <ident> 1000 is the NULL key (legal for aws_hash_table: hash 42, equal to itself only; the user's hash / equality
  * callbacks never see it; its pointer number is always 0), <val> 0 is the NULL value.
  */
@@ -189,6 +192,8 @@ static void s_on_key_destroy(void *p) {
     s_keymem[ki][kq] = NULL;
 }
 
+static const void *s_reput_value; /* the value pointer of a put in progress when it is an object already alive */
+
 static void s_on_val_destroy(void *p) {
     struct hval *v = p;
     if (s_quiet) {
@@ -208,6 +213,9 @@ static void s_on_val_destroy(void *p) {
     if (!s_quiet) {
         HC_CHECK(s_nevs < MAX_EVS);
         snprintf(s_evs[s_nevs++], sizeof(s_evs[0]), "v%lu", v->val);
+    }
+    if (p == s_reput_value) {
+        return; /* this very object is being re-inserted by the call in progress: it stays alive */
     }
     if (v->slot < MAX_VALS && s_vals[v->slot] == v) {
         s_vals[v->slot] = NULL;
@@ -558,13 +566,22 @@ int main(void) {
             void *k = s_key_obj((unsigned)atoi(t[1]), (unsigned)atoi(t[2]));
             HC_CHECK(s_nvals < MAX_VALS);
             struct hval *v = NULL;
-            if (strtoul(t[3], NULL, 10) != 0) {
+            unsigned long want = strtoul(t[3], NULL, 10);
+            s_reput_value = NULL;
+            for (size_t i = 0; want != 0 && i < s_nvals; ++i) {
+                if (s_vals[i] && s_vals[i]->val == want) {
+                    v = s_vals[i]; /* the same value object again */
+                    s_reput_value = v;
+                }
+            }
+            if (want != 0 && !v) {
                 v = malloc(sizeof(*v));
-                v->val = strtoul(t[3], NULL, 10);
+                v->val = want;
                 v->slot = s_nvals;
                 s_vals[s_nvals++] = v;
             }
             int rc = s_kind == K_LHT ? aws_linked_hash_table_put(&s_lht, k, v) : aws_cache_put(s_cache, k, v);
+            s_reput_value = NULL;
             printf("P put %s\n", hc_err(rc));
             s_print_evs(true);
             s_print_state();
